@@ -685,6 +685,19 @@ def query_to_map(text):
 @functools.lru_cache()
 def urljoin(base_url, url, allow_fragments=True):
     '''Join URLs like ``urllib.parse.urljoin`` but allow scheme-relative URL.'''
+    if not allow_fragments and '#' in url:
+        # Without fragment handling, urllib takes the fragment for a part of
+        # the path or query: a fragment-only reference would replace the last
+        # path segment of the base and dot segments in a fragment would
+        # remove segments of the path. Join without it and put it back.
+        url, fragment = url.split('#', 1)
+
+        if not url:
+            # A reference to a part of the base document itself.
+            return urllib.parse.urldefrag(base_url)[0] + '#' + fragment
+
+        return urljoin(base_url, url, allow_fragments=False) + '#' + fragment
+
     if url.startswith('//') and len(url) > 2:
         scheme = base_url.partition(':')[0]
         if scheme:
@@ -693,12 +706,6 @@ def urljoin(base_url, url, allow_fragments=True):
                 '{0}:{1}'.format(scheme, url),
                 allow_fragments=allow_fragments
             )
-
-    if not allow_fragments and url.startswith('#'):
-        # A reference to a part of the base document itself. Without
-        # fragment handling, urllib would take it for a relative path and
-        # replace the last path segment of the base with it.
-        return urllib.parse.urldefrag(base_url)[0] + url
 
     return urllib.parse.urljoin(
         base_url, url, allow_fragments=allow_fragments)
